@@ -1,6 +1,7 @@
 // DEC world: whole decoders from a per-worker template, logical client tasks (producer / observer / mutator)
 // interleaved by the plan, reference results from a pristine sibling process.  DESIGN.md sections 5 and 6.
 #include "dec.h"
+#include <sys/time.h>
 #include <algorithm>
 #include <cmath>
 #include <sys/wait.h>
@@ -1679,7 +1680,13 @@ static int reference_in_sibling(const Ctx &ctx, const Json &plan, size_t begin_i
         return -1;
     if (pid == 0) {
         close(pfd[0]);
-        alarm(60);
+        {
+            struct itimerval it; // processor-time limit of the reference sibling (see kernel.cc)
+            memset(&it, 0, sizeof it);
+            it.it_value.tv_sec = 60;
+            setitimer(ITIMER_PROF, &it, nullptr);
+            alarm(1200);
+        }
         Outcome dummy;
         Ctx c2 = ctx;
         c2.out = &dummy;
